@@ -139,6 +139,15 @@ def build_model(rng):
                 p = t if p is None else p + t
             pts.append(p)
             desc["n_comb"] += 1
+            if rng.random() < 0.3:
+                # points written with an explicit null coefficient: a pure scaling by 0, the documented constructor with a
+                # zero weight (sums are pruned by the operators, these are not)
+                leafs_ = [q_ for q_ in pts if q_.get_is_leaf()]
+                a_, b_ = rng.choice(leafs_), rng.choice(leafs_)
+                pts.append(rng.choice([lambda: 0 * rng.choice(pts),
+                                       lambda: Point(is_leaf=False, decomposition_dict={a_: 1.0, b_: 0.0} if a_ is not b_ else {a_: 1.0}),
+                                       lambda: (0 * a_) * 2]) ())
+                desc["null_coefficient_points"] = desc.get("null_coefficient_points", 0) + 1
         elif r < 0.4 and len(pts) >= 2:
             # blocks of temporary combinations the caller keeps no reference to
             part = rng.choice(parts)
